@@ -132,11 +132,14 @@ fn float_build<T: Tier + Dom<M = Sh>>(rep: &mut Report) {
     // angles of more than a half and more than a full turn: "for all angles", and the half-angle formulas of the
     // quaternion change sign there
     grid.extend([4.0, -4.0, 7.0, -7.0, 9.5, -13.0, 2e-3, -1e-6]);
+    // ... and of many turns, both senses, landing in either half of the circle (an argument reduction that starts only
+    // beyond some number of turns)
+    grid.extend([40.3, -52.9, 101.7, -150.0, 1000.1, -1003.4, 5000.3, -7460.0 * PI / 180.0]);
     let n = grid.len();
     rep.cases(
         "build/native",
         T::NAME,
-        &format!("{n}^3 angle triples on [-3.3, 3.3] rad and from {{+-4, +-7, 9.5, -13, 2e-3, -1e-6}} rad, as Rad and as Deg"),
+        &format!("{n}^3 angle triples on [-3.3, 3.3] rad and from {{+-4, +-7, 9.5, -13, 2e-3, -1e-6, 40.3, -52.9, 101.7, -150, 1000.1, -1003.4, 5000.3, -130.2}} rad, as Rad and as Deg"),
         n * n * n * 2,
         Guard::states(100).distinct(100),
         |i, ctx| {
